@@ -478,7 +478,13 @@ fn wide_batch(c: &WideCase, w: usize) -> RecordBatch {
     for l in &wide_label_sets()[c.writes[w]] {
         if *l == "env" {
             // dictionary-encoded, with a null and a repeated value
-            let d: DictionaryArray<arrow_array::types::Int32Type> = vec![Some("prod"), None, Some("prod"), Some("Prod ")].into_iter().collect();
+            // every producer encodes against its own dictionary: same length, other entries / entry order per write
+            let vals: Vec<Option<&str>> = match w % 3 {
+                0 => vec![Some("prod"), None, Some("prod"), Some("Prod ")],
+                1 => vec![Some("Prod "), None, Some("prod"), Some("prod")],
+                _ => vec![Some("dev"), Some("qa"), None, Some("dev")],
+            };
+            let d: DictionaryArray<arrow_array::types::Int32Type> = vals.into_iter().collect();
             fields.push(Field::new("env", d.data_type().clone(), true));
             cols.push(Arc::new(d));
         } else {
@@ -591,7 +597,7 @@ fn wide_space(rep: &mut Report) {
     rep.add_u64("evaluations", cs.len() as u64);
     rep.add_u64("executions", cs.len() as u64);
     rep.set("wide_schemas", json!({"cases": cs.len(), "chunks_written": chunks, "cases_with_several_chunks": multi,
-        "rule": "1-3 successive writes of 4-row batches with value_f64 / value_i64 / value_u64 (extremes, NaN, -0.0, nulls), 4 label sets (incl. a dictionary-encoded label and an all-null label; a change of label set forces a schema-change flush) x {Int64, Timestamp(ns,UTC)} x flush thresholds {1, 5, none}; stored objects vs the accepted Arrow batches, every non-null value (floats by bit pattern)"}));
+        "rule": "1-3 successive writes of 4-row batches with value_f64 / value_i64 / value_u64 (extremes, NaN, -0.0, nulls), 4 label sets (incl. a dictionary-encoded label whose dictionary differs from write to write, and an all-null label; a change of label set forces a schema-change flush) x {Int64, Timestamp(ns,UTC)} x flush thresholds {1, 5, none}; stored objects vs the accepted Arrow batches, every non-null value (floats by bit pattern)"}));
     if multi == 0 {
         rep.machinery("vacuity guard: no wide-schema case wrote more than one chunk");
     }
